@@ -251,15 +251,21 @@ func (e *engine) runPair(j job, budget time.Duration, jobSeed int64) {
 			// the unchecked decoder (GenerateUnsafeMethods) must agree with the checked one on these bytes too
 			opM := fmt.Sprintf("mustunmarshal %d %s", di, hexB2)
 			if rmu := r.real(opM); rmu.Class != "absent" {
+				// C09 compares the two decoders only where the checked one is RIGHT (on the values of the listed
+				// nested-struct finding both read misaligned bytes, and an unchecked decoder may panic on those)
+				safeRight := false
+				if gu, errU := ru.Val(); errU == nil && gu.CanonString() == want {
+					safeRight = true
+				}
 				if r.badReal("C04", di, opM, rmu, false) {
 					outcome = "fail"
-					if ru.Class == "ok" && e.props["C09"] {
+					if safeRight && e.props["C09"] {
 						r.fail("C09", "oracle", di, opM, ru.Short(), rmu.Short(), "", "MustUnmarshalBebop fails where UnmarshalBebop succeeds (bytes written under a newer schema version)")
 					}
 				} else if got, err := rmu.Val(); err != nil || got.CanonString() != want {
 					outcome = "fail"
 					r.fail("C04", "oracle", di, opM, "ok "+want, rmu.Short(), "", note)
-					if gu, err2 := ru.Val(); err2 == nil && (err != nil || got.CanonString() != gu.CanonString()) && e.props["C09"] {
+					if gu, err2 := ru.Val(); safeRight && err2 == nil && (err != nil || got.CanonString() != gu.CanonString()) && e.props["C09"] {
 						r.fail("C09", "oracle", di, opM, ru.Short(), rmu.Short(), "", "MustUnmarshalBebop differs from UnmarshalBebop on bytes written under a newer schema version")
 					}
 				}
